@@ -45,6 +45,15 @@ def evaluate(case: Dict[str, Any]) -> Dict[str, Any]:
         if vhex(x) != vhex(x0c) or vhex(g) != vhex(np.atleast_1d(p.grad(x0c.copy()))) \
                 or vhex(lb) != vhex(p.lb) or vhex(ub) != vhex(p.ub):
             out["prop"].append({"what": "gradient scaler not called with (start point, its unscaled gradient, bounds)", "key": ""})
+    if desc["features"].get("scaler") == "packaged" and nsc == 1 and A.rec.sc and not A.rec.sc.startswith("!"):
+        # the packaged scaler against its Lean model (Model/Utils.lean), bit for bit
+        x_, g_, lb_, ub_ = A.rec.sc_args
+        got = shell.driver().run([f"unitscale {vhex(x_)} {vhex(g_)} {vhex(lb_)} {vhex(ub_)}"])
+        if not got or got[0] != f"unitscale {A.rec.sc}":
+            out["corr"].append(f"packaged scaler: implementation {A.rec.sc} model {(got or [''])[0]}")
+        out["tags"].append("packaged_scaler_model_compared=True")
+        if not s > 0:
+            out["prop"].append({"what": f"the packaged scaler returned a non-positive factor {s}", "key": ""})
     if not (s > 0 and np.isfinite(s)):
         return out
     # target stop tested on the unscaled value
